@@ -253,6 +253,12 @@ func (dsc *dataStoreCommand) setRange(keyName string, offset int, substring stri
 		setBytes = []byte{}
 	}
 
+	if len(substring) == 0 {
+		// nothing to write: report the current length, and never create the key
+		result.data = respInt(len(setBytes))
+		return
+	}
+
 	if offset > 512*1024*1024 || offset+len(substring) > 512*1024*1024 {
 		result.data = respErrorString("ERR string exceeds maximum allowed size (proto-max-bulk-len)")
 		return
